@@ -51,6 +51,7 @@ CONSTANTS
     \* ---- rules (TRUE = what a correct implementation does) ----
     WaitAfterData,  \* the source awaits the sink's response after data + status
     WarnIsFatal,    \* (wrong when TRUE) the source treats a warning as fatal
+    FatalIsWarn,    \* (wrong when TRUE) a fatal error is handled like a warning
     SendEmptyE,     \* the source sends E also for a directory without entries
     SinkReadsStatus,\* the sink consumes the status that follows the data
     RecordErrors,   \* a handled warning is passed to the error_handler
@@ -125,13 +126,14 @@ VARIABLES
     quit,       \* a free peer went away in the middle of the dialogue (ghost)
     desync,     \* a reader met bytes of a kind it did not expect (ghost)
     refused,    \* items actually refused so far (ghost)
+    fatalSeen,  \* the code side was told of a fatal error by its peer (ghost)
     s, k, c,    \* source, sink, copier
     fs,         \* destination file system: path -> entry
     nid,        \* next request id (ghost)
     log         \* everything written / decided, in order (replay); hidden by VIEW
 
-vars == <<cfg, ch, closed, cut, quit, desync, refused, s, k, c, fs, nid, log>>
-view == <<cfg, ch, closed, cut, quit, desync, refused, s, k, c, fs, nid>>
+vars == <<cfg, ch, closed, cut, quit, desync, refused, fatalSeen, s, k, c, fs, nid, log>>
+view == <<cfg, ch, closed, cut, quit, desync, refused, fatalSeen, s, k, c, fs, nid>>
 
 N == Len(cfg.tree)
 Ref(n) == IF n \in DOMAIN cfg.ref THEN cfg.ref[n] ELSE "none"
@@ -159,7 +161,7 @@ Create(f, p, e) ==
 
 \* one step of one party = a delta applied to the state
 D0 == [me |-> <<>>, out |-> <<>>, eat |-> "", ref |-> {}, des |-> FALSE,
-       useid |-> FALSE, close |-> {}, fs |-> fs, quit |-> FALSE]
+       useid |-> FALSE, close |-> {}, fs |-> fs, quit |-> FALSE, fat |-> FALSE]
 Out(x, tok) == [to |-> x, tok |-> tok]
 
 -----------------------------------------------------------------------------
@@ -171,7 +173,7 @@ S0 == [pc |-> "init", n |-> 1, open |-> <<>>, blk |-> 0, lexc |-> FALSE, wid |->
 \* handle_error on the source side for an error about item x; afterwards the
 \* walk goes on at node nx with open directories opn
 SrcErr(st, x, fatal, nx, opn) ==
-    LET f == fatal \/ WarnIsFatal
+    LET f == (fatal /\ ~FatalIsWarn) \/ WarnIsFatal
     IN  IF SrcServer \/ (cfg.handler /\ ~f)
         THEN [st EXCEPT !.pc = "walk", !.n = nx, !.open = opn, !.blk = 0, !.lexc = FALSE,
                         !.rep = IF SrcServer \/ ~RecordErrors THEN @ ELSE @ \cup {x}]
@@ -221,7 +223,8 @@ SrcResp ==
          THEN IF r.t = "ok" THEN {[eat EXCEPT !.me = [s EXCEPT !.pc = "walk"]]}
               ELSE \* the exception leaves the loop in run(): nothing is sent
                    LET e == SrcErr(s, r.n, r.t = "fatal", N + 1, <<>>)
-                   IN  {[eat EXCEPT !.me = [e EXCEPT !.pc = "closing"]]}
+                   IN  {[eat EXCEPT !.me = [e EXCEPT !.pc = "closing"],
+                                    !.fat = r.t = "fatal"]}
          ELSE IF r.t = "ok"
          THEN CASE s.pc = "T_wait" ->
                      LET d == SrcItem(s) IN {[d EXCEPT !.eat = "sr"]}
@@ -238,8 +241,8 @@ SrcResp ==
          ELSE \* warning or fatal error
               LET f == r.t = "fatal" IN
               IF s.pc = "E_wait"
-              THEN {[eat EXCEPT !.me = SrcErr(s, r.n, f, s.n, Front(s.open))]}
-              ELSE {[eat EXCEPT !.me = SrcErr(s, r.n, f, SubEnd(n), s.open)]}
+              THEN {[eat EXCEPT !.me = SrcErr(s, r.n, f, s.n, Front(s.open)), !.fat = f]}
+              ELSE {[eat EXCEPT !.me = SrcErr(s, r.n, f, SubEnd(n), s.open), !.fat = f]}
 
 SrcData ==
     LET n == s.n
@@ -333,28 +336,32 @@ K0 == [pc |-> "start", stack |-> <<>>, cur |-> [path |-> <<>>, n |-> 0, size |->
 Frame(p, dn, dtm) == [path |-> p, tm |-> 0, dn |-> dn, dtm |-> dtm]
 
 SnkErr(st, x, fatal) ==
-    IF SnkServer \/ (cfg.handler /\ ~fatal)
+    IF SnkServer \/ (cfg.handler /\ (~fatal \/ FatalIsWarn))
     THEN [st EXCEPT !.rep = IF SnkServer \/ ~RecordErrors THEN @ ELSE @ \cup {x}]
     ELSE [st EXCEPT !.pc = "closing", !.raised = x]
 
 SetTop(st, tm) == [st EXCEPT !.stack[Len(st.stack)].tm = tm]
 
-\* setstat of every directory still open (EOF: the nested loops return normally)
-RECURSIVE Unwind(_, _)
-Unwind(f, stk) ==
+\* setstat of every directory still open (EOF: the nested loops return normally).
+\* A setstat that fails here cannot be answered any more (the channel is closed):
+\* the BrokenPipeError of the attempt leaves the enclosing loop as well, so the
+\* directory above the failing one is not touched; the levels above that are.
+RECURSIVE Unwind(_, _, _)
+Unwind(f, stk, skip) ==
     IF Len(stk) <= 1 THEN f
     ELSE LET fr == Last(stk)
-             f2 == IF cfg.pres /\ Ref(fr.dn) # "kstat" /\ fr.path \in DOMAIN f
+             fails == ~skip /\ cfg.pres /\ Ref(fr.dn) = "kstat"
+             f2 == IF cfg.pres /\ ~skip /\ ~fails /\ fr.path \in DOMAIN f
                    THEN [f EXCEPT ![fr.path].perm = fr.dn,
                                   ![fr.path].tm = IF fr.dtm # 0 THEN fr.dtm ELSE @] ELSE f
-         IN  Unwind(f2, Front(stk))
+         IN  Unwind(f2, Front(stk), fails)
 
 \* A lost connection is not an SCP-level end of file: the reader raises an
 \* exception that none of the handlers catches, everything is abandoned.
 SnkGone == [D0 EXCEPT !.me = [k EXCEPT !.pc = "closing",
                                        !.raised = IF SnkServer THEN 0 ELSE CONN]]
 SnkEOF(st) == IF cut THEN SnkGone
-              ELSE [D0 EXCEPT !.me = [st EXCEPT !.pc = "closing"], !.fs = Unwind(fs, st.stack)]
+              ELSE [D0 EXCEPT !.me = [st EXCEPT !.pc = "closing"], !.fs = Unwind(fs, st.stack, FALSE)]
 \* end of file in the middle of a file: 'Connection lost' (fatal), which the
 \* server side swallows: its loops then end on the next read
 SnkLost == IF cut THEN SnkGone
@@ -407,7 +414,8 @@ SnkRec ==
         warn(x) == [eat EXCEPT !.me = SnkErr(SetTop(k, 0), x, FALSE),
                                !.out = <<Reply("warn", x, tok.id)>>, !.ref = {x}]
     IN
-    CASE tok.t \in {"W", "F"} -> {[eat EXCEPT !.me = SnkErr(k, tok.n, tok.t = "F")]}
+    CASE tok.t \in {"W", "F"} -> {[eat EXCEPT !.me = SnkErr(k, tok.n, tok.t = "F"),
+                                              !.fat = tok.t = "F"]}
       [] tok.t = "T" -> {[eat EXCEPT !.me = SetTop(k, IF cfg.pres THEN tok.n ELSE 0),
                                      !.out = <<Reply("ok", 0, tok.id)>>]}
       [] tok.t = "E" ->
@@ -541,7 +549,7 @@ C0 == [pc |-> IF R2R THEN "init" ELSE "done", kind |-> "", n |-> 0, size |-> 0, 
        depth |-> 0, sexc |-> FALSE, sfatal |-> FALSE, rep |-> {}, raised |-> 0]
 
 CopErr(st, x, fatal, pc) ==
-    IF cfg.handler /\ ~fatal
+    IF cfg.handler /\ (~fatal \/ FatalIsWarn)
     THEN [st EXCEPT !.pc = pc, !.rep = IF RecordErrors THEN @ \cup {x} ELSE @]
     ELSE [st EXCEPT !.pc = "closing", !.raised = x]
 CopLost == [D0 EXCEPT !.me = [c EXCEPT !.pc = "closing", !.raised = CONN]]
@@ -630,6 +638,7 @@ Apply(d, who) ==
     /\ desync' = (desync \/ d.des)
     /\ quit' = (quit \/ d.quit)
     /\ refused' = refused \cup d.ref
+    /\ fatalSeen' = (fatalSeen \/ d.fat)
     /\ fs' = d.fs
     /\ nid' = IF d.useid THEN nid + 1 ELSE nid
     /\ log' = IF KeepLog
@@ -664,7 +673,7 @@ Cut == /\ AllowCut # "no" /\ ~cut /\ ~AllDone
        /\ ch' = [x \in Chans |-> <<>>]
        /\ closed' = [x \in Chans |-> TRUE]
        /\ log' = IF KeepLog THEN Append(log, <<"env", "cut", Tok("cut", 0, 0, 0)>>) ELSE log
-       /\ UNCHANGED <<cfg, quit, desync, refused, s, k, c, fs, nid>>
+       /\ UNCHANGED <<cfg, quit, desync, refused, fatalSeen, s, k, c, fs, nid>>
 
 Finished == AllDone /\ UNCHANGED vars
 
@@ -680,7 +689,7 @@ Init ==
                       handler |-> b.handler, dst |-> b.dst, ref |-> r]
     /\ ch = [x \in Chans |-> <<>>]
     /\ closed = [x \in Chans |-> FALSE]
-    /\ cut = FALSE /\ quit = FALSE /\ desync = FALSE /\ refused = {}
+    /\ cut = FALSE /\ quit = FALSE /\ desync = FALSE /\ refused = {} /\ fatalSeen = FALSE
     /\ s = S0 /\ k = K0 /\ c = C0
     /\ fs = InitFs(cfg.dst)
     /\ nid = 1
@@ -745,6 +754,9 @@ RefusalsReported ==
 
 NoDesync == ~desync
 
+(* a fatal error from the peer ends the transfer with an exception, handler or not *)
+FatalRaised == (AllDone /\ ClientIsCode /\ ~R2R /\ fatalSeen) => Client.raised # 0
+
 (* remote-to-remote: responses travel towards the source, requests towards the sink *)
 ForwardedRight ==
     R2R => /\ \A i \in 1 .. Len(ch["sr"]) : ch["sr"][i].t \in RespT
@@ -752,7 +764,7 @@ ForwardedRight ==
 
 Terminates == <>[]AllDone
 
-Final == [cfg |-> cfg, fs |-> fs, cut |-> cut, quit |-> quit, refused |-> refused, desync |-> desync,
+Final == [cfg |-> cfg, fs |-> fs, cut |-> cut, quit |-> quit, fatal |-> fatalSeen, refused |-> refused, desync |-> desync,
           srep |-> s.rep, sraised |-> s.raised, krep |-> k.rep, kraised |-> k.raised,
           crep |-> c.rep, craised |-> c.raised]
 EmitScript == AllDone => PrintT(ToString(<<"SCRIPT", log, Final>>))
